@@ -31,12 +31,48 @@ def run(prog, tier):
             "subprocess.Popen raises OSError when the program cannot be started")
     res = Resolver(prog)
     eff = Effects(prog, res)
-    check_tmp_pair(R, prog)
-    check_table(R, prog)
-    check_exceptions(R, prog, eff)
-    check_verdict(R, prog)
-    check_argv(R, prog)
+    T = Result(P, "")
+    check_table(T, prog)
+    check_tmp_pair(T, prog)
+    check_exceptions(T, prog, eff)
+    check_verdict(T, prog)
+    check_argv(T, prog)
+    check_bridge(R, prog, T)
     return R
+
+
+def check_bridge(R, prog, T):
+    """BRIDGE-SEMANTICS: the three interface functions and sat_solve, folded over a stand-in file table and a scripted process
+    (sa/props/_c20_fold.py), give the documented verdicts and errors, hand the formula over as DIMACS text, split the command into
+    words and remove every temporary file.  A shape finding inside a function whose folding confirmed all of that is recorded as
+    undecided shape; a refuted folding is a finding of its own."""
+    from . import _c20_fold as cf
+    verdicts = {}
+    for name in ("_satsolve_filein_fileout", "_satsolve_stdin_stdout", "_satsolve_filein_stdout", "sat_solve"):
+        fi = prog.func(MOD, name)
+        v = cf.verdict(prog, name)
+        verdicts[name] = v
+        if v[0] is True:
+            R.ok("BRIDGE-SEMANTICS", "%s: %s" % (name, v[1]), fi.key)
+        elif v[0] is False:
+            R.bad(F("BRIDGE-SEMANTICS", fi, "%s behaves as documented" % name, v[1]))
+        else:
+            R.unknown("BRIDGE-SEMANTICS", name, fi.key, v[1])
+    for o in T.obligations:
+        if o["status"] == "discharged":
+            R.ok(o["rule"], o["instance"], o["where"], nontrivial=o["nontrivial"])
+    for u in T.unproven:
+        R.unknown(u["rule"], u["instance"], u["where"], u["why"])
+    R.floors.extend(T.floors)
+    for t in T.trusted:
+        R.trust(t)
+    for f in T.findings:
+        top = (f.function or "").split(".")[0]
+        if verdicts.get(top, (None,))[0] is True and f.rule != "SOLVER-TABLE":          # (what the documentation says is not folded)
+            R.unknown(f.rule, f.construct, "%s:%s %s" % (f.file, f.line, f.function),
+                      "shape not recognised (%s); the meaning of the fragment was confirmed by folding" % f.message[:120])
+        else:
+            R.bad(f)
 
 
 def check_tmp_pair(R, prog):
